@@ -134,12 +134,14 @@ func (s *JSONDB) ReadStatusRecent(dagFile string, n int) []*model.StatusFile {
 	// just opened, or recorder killed) and the second copy of a run whose
 	// compaction was interrupted must not use up one of the n places.
 	files := s.latest(s.globPattern(dagFile), -1)
+	verifPoint("listed", dagFile)
 	seen := map[string]bool{}
 	for _, file := range files {
 		if len(ret) >= n {
 			break
 		}
 		file := file
+		verifPoint("visit", file)
 		status, err := s.cache.LoadLatest(file, func() (*model.Status, error) {
 			return ParseFile(file)
 		})
@@ -160,12 +162,14 @@ func (s *JSONDB) ReadStatusToday(dagFile string) (*model.Status, error) {
 	if err != nil {
 		return nil, err
 	}
+	verifPoint("listed", dagFile)
 	// The newest file may hold no complete status yet (the run has just
 	// been opened, or its process died before the first write): fall back
 	// to the newest file that does.
 	var lastErr error
 	for _, file := range files {
 		file := file
+		verifPoint("visit", file)
 		status, err := s.cache.LoadLatest(file, func() (*model.Status, error) {
 			return ParseFile(file)
 		})
@@ -250,6 +254,7 @@ func (s *JSONDB) Compact(original string) error {
 		return err
 	}
 	defer w.close()
+	verifPoint("compact.created", f)
 
 	if err := w.write(status); err != nil {
 		if removeErr := os.Remove(f); removeErr != nil {
@@ -258,6 +263,7 @@ func (s *JSONDB) Compact(original string) error {
 		return err
 	}
 
+	verifPoint("compact.written", f)
 	return os.Remove(original)
 }
 
